@@ -237,11 +237,26 @@ func init() {
 			}
 			ip := r.Need(c.Fn(c.W, "isPrevented"), "isPrevented")
 			if ip != nil {
-				s := ""
-				for _, ret := range ip.returnsOf() {
-					s += types.ExprString(ret.Results[0])
+				// one return: reflect.StructTag(<the parameter>).Get("wire") == "-" (operands in either order)
+				okD := false
+				if rets := ip.returnsOf(); len(rets) == 1 {
+					if be, ok := ast.Unparen(rets[0].Results[0]).(*ast.BinaryExpr); ok && be.Op == token.EQL {
+						l, rr := be.X, be.Y
+						if tv, isC := ip.Info.Types[l]; isC && tv.Value != nil {
+							l, rr = rr, l
+						}
+						tv, isC := ip.Info.Types[rr]
+						if gc := ip.isCall(l, "reflect.StructTag.Get"); gc != nil && isC && tv.Value != nil && tv.Value.ExactString() == `"-"` {
+							ktv, kc := ip.Info.Types[gc.Args[0]]
+							if conv, ok := ast.Unparen(recvOf(gc)).(*ast.CallExpr); ok && len(conv.Args) == 1 && kc && ktv.Value != nil && ktv.Value.ExactString() == `"wire"` {
+								if pv := ip.varOf(conv.Args[0]); pv != nil && ip.isParam(pv) {
+									okD = true
+								}
+							}
+						}
+					}
 				}
-				r.Check(s == `reflect.StructTag(tag).Get("wire") == "-"`, "isPrevented/definition", ip.Decl.Pos(), "isPrevented(tag) is reflect.StructTag(tag).Get(\"wire\") == \"-\" (%s)", s)
+				r.Check(okD, "isPrevented/definition", ip.Decl.Pos(), "isPrevented(tag) is reflect.StructTag(tag).Get(\"wire\") == \"-\"")
 			}
 		})
 
@@ -561,7 +576,7 @@ func init() {
 						okCall = callRejection(fi, cc, setsFalse)
 					case nm == "*ast.UnaryExpr":
 						for _, rj := range rs {
-							if be, ok := ast.Unparen(rj.cond).(*ast.BinaryExpr); ok && be.Op == token.EQL {
+							if be, ok := ast.Unparen(fi.orient(rj.cond)).(*ast.BinaryExpr); ok && be.Op == token.EQL {
 								if sel, ok := ast.Unparen(be.X).(*ast.SelectorExpr); ok && sel.Sel.Name == "Op" && types.ExprString(be.Y) == "token.ARROW" {
 									okUnary = len(rs) == 1
 								}
